@@ -239,7 +239,9 @@ func arrayExecMerge(ar *Array, values []r.Element) (r.Element, error) {
 	// update new array
 	ar.value = result
 
-	return NewArray(result), nil
+	// the returned list has its own storage: later appends to one of the two lists
+	// must not overwrite items of the other one
+	return NewArray(append([]r.Element{}, result...)), nil
 }
 
 func arrayExecContains(ar *Array, values []r.Element) (r.Element, error) {
